@@ -2,9 +2,9 @@
    Only ExtrOcamlBasic is used: bool, option, unit, prod, list, sumbool, sumor are mapped to
    the OCaml types; nat, N, Z, positive stay the extracted inductive datatypes. *)
 Require Import ExtrOcamlBasic.
-Require Import Base RW Return Chain Regex Route Tree Router RouteSpec UrlPath Groups Lexer Parser Grammar Inject Escape Static Render.
+Require Import Base RW RWStack Return Chain Regex Route Tree Router RouteSpec UrlPath Groups Lexer Parser Grammar Inject Escape Static Render.
 Extraction Language OCaml.
-Separate Extraction RW.run RW.spec_ok RW.valid_op
+Separate Extraction RW.run RW.spec_ok RW.valid_op RWStack.stack_run RWStack.lower_ops RWStack.view
   Return.render Return.table Return.apply_wops Return.supported
   Chain.serve Chain.chain_spec_ok
   Regex.full Regex.search Regex.plus Regex.opt Regex.lit_re Route.render_route Tree.add_route Tree.mtree Tree.join_slash Tree.cap_ok
